@@ -412,6 +412,8 @@ class Schedule:  # 0404
         except TimeoutError as err:
             raise TimeoutError(f"failed to set schedule: {err}") from err
         else:
+            # the cached (Rx'd) fragments are of the schedule that was just replaced
+            self._payload_set = list(EMPTY_PAYLOAD_SET)
             if not force_refresh:
                 self._global_ver, _ = await self.tcs._schedule_version(force_io=True)
                 # assert self._global_ver > self._sched_ver
